@@ -58,7 +58,7 @@ _seq_text = st.one_of(
 )
 arg_values = st.one_of(
     st.integers(-1000, 1000), st.floats(-1e6, 1e6, allow_nan=False), st.booleans(), _plain, _num_text, _seq_text,
-    st.lists(st.one_of(st.integers(-9, 9), _num_text, _plain), min_size=1, max_size=3).map(lambda l: {"list": l}),
+    st.lists(st.one_of(st.integers(-9, 9), _num_text, _plain, st.sampled_from([0, 0.0, 0, 1])), min_size=1, max_size=3).map(lambda l: {"list": l}),  # (0: falsy but valid)
     st.lists(st.floats(-9, 9, allow_nan=False), min_size=1, max_size=3).map(lambda l: {"ndarray": l}),
 )
 
